@@ -28,6 +28,10 @@ Fragment kinds (what the mate-pairing library delivers is taken as given, the st
               C matches two buffered molecules and must join exactly one of them
   untagged    a proper pair without SM/RX/... tags whose read name carries no demultiplexing information: the tagger
               cannot assign it to a cell (C20: data-driven failure; not part of the random C05 kinds)
+  pos0        unpaired forward read at coordinate 0 of the contig
+  contig_end  unpaired reverse read whose last aligned base is the last base of the contig
+  cigar       pair with soft clip / insertion / deletion / skipped region / hard clip in its CIGARs
+  minimal_tags  read that only carries SM and RX (no flowcell / lane / library / barcode tags)
   dup_lane    copy of the previous pair sequenced on another lane / flowcell: same molecule, different read group,
               and that read group is not the first fragment of any molecule
   unplaced_pair / unplaced_single   unmapped, no position                      invalid
@@ -41,16 +45,18 @@ BIG_LENGTHS = [100_000, 100_001, 250_000]
 THRESHOLD = 100_000
 
 PLACED_KINDS = ['pair', 'pair_rev', 'dup', 'single', 'nomotif', 'qcfail', 'half', 'orphan_r2', 'orphan_r1', 'secondary',
-                'dup_lane', 'orphan_unmapped', 'sec_only', 'half_r1u', 'cross', 'unmapped_placed_pair', 'umi_bridge']
+                'dup_lane', 'orphan_unmapped', 'sec_only', 'half_r1u', 'cross', 'unmapped_placed_pair', 'umi_bridge',
+                'pos0', 'contig_end', 'cigar', 'minimal_tags']
 SIMPLE_KINDS = ['pair', 'single', 'pair_rev']
 UNPLACED_KINDS = ['unplaced_pair', 'unplaced_single']
 
-_QUALS = 'FJA<7-IE'
+_QUALS = 'FJA<7-IE!#'          # includes phred 0 ('!')
 
 
 def contig_names(k, rng):
     """Names whose lexicographic order differs from the header order."""
-    pool = ['chr10', 'chr2', 'chrM', 'scaffold_9', 'chr1', 'KI27', 'chrX', 'alt_3', 'chr11', 'GL00', 'chrY', 'chr3', 'un_7', 'chr20']
+    pool = ['chr10', 'chr2', 'chrM', 'scaffold_9', 'chr1', 'KI27', 'chrX', 'alt_3', 'chr11', 'GL00', 'chrY', 'chr3', 'un_7', 'chr20',
+            'chr1_alt', '1']           # names that are prefixes / substrings of each other
     rng.shuffle(pool)
     return pool[:k]
 
@@ -78,7 +84,7 @@ def random_layout(rng, max_contigs=12, max_n=4, kinds=None):
 
 
 def _seq(rng, n, start='', end=''):
-    body = ''.join(rng.choice('ACGT') for _ in range(n - len(start) - len(end)))
+    body = ''.join(rng.choice('ACGTACGTACGTACGTN') for _ in range(n - len(start) - len(end)))       # an occasional N
     s = start + body + end
     # never contain CATG by accident at either end, never a long homopolymer
     return s
@@ -105,7 +111,7 @@ def build(layout, rng, method='nla'):
     serial = [0]
 
     def tags(sample, umi):
-        t = {'SM': sample, 'RX': umi, 'BC': 'ACGTACGT', 'Fc': 'FCX1', 'La': rng.choice(['1', '2']), 'LY': sample.split('_')[0]}
+        t = {'SM': sample, 'RX': umi, 'BC': 'ACGTACGT', 'Fc': 'FCX1', 'La': rng.choice(['1', '2', '0']), 'LY': sample.split('_')[0]}
         if method == 'nla':
             t['MX'] = 'NLAIII384C8U3'
         return t
@@ -125,7 +131,7 @@ def build(layout, rng, method='nla'):
             if fi == len(c['kinds']) - 1 and rng.random() < 0.3:
                 pos = c['len'] - 120          # a fragment close to the contig end
             l1, l2 = rng.randint(20, 30), rng.randint(20, 30)
-            sample = 'LIBA_%d' % rng.randint(1, 3)
+            sample = rng.choice(['LIBA_%d', 'LIBA_%d', 'LIB.B-x_%d']) % rng.randint(1, 3)     # also '.' and '-' in names
             umi = ''.join(rng.choice('ACGT') for _ in range(3))
             name = newname(kind)
             tg = tags(sample, umi)
@@ -204,6 +210,30 @@ def build(layout, rng, method='nla'):
                     reads += [r1, r2]
                     note(name, 1, 1, True, kind, cn)
                     note(name, 2, 2, False, kind, o['name'])
+            elif kind == 'pos0':
+                reads.append(bamgen.make_read(header, name, cn, 0, _seq(rng, l1, start='CATG'), _qual(rng, l1), tags=tg))
+                note(name, 0, 0, True, kind, cn)
+            elif kind == 'contig_end':
+                reads.append(bamgen.make_read(header, name, cn, c['len'] - l1, _seq(rng, l1, end='CATG'), _qual(rng, l1), reverse=True,
+                                              tags=tg))
+                note(name, 0, 0, True, kind, cn)
+            elif kind == 'minimal_tags':
+                reads.append(bamgen.make_read(header, name, cn, pos, _seq(rng, l1, start='CATG'), _qual(rng, l1),
+                                              tags={'SM': tg['SM'], 'RX': tg['RX']}))
+                note(name, 0, 0, True, kind, cn)
+            elif kind == 'cigar':
+                # R1: soft clip + match; R2: one of insertion / deletion / skipped region / hard clip (query length = l2)
+                c1 = '3S%dM' % (l1 - 3)
+                a = l2 // 2
+                c2 = rng.choice(['%dM2I%dM' % (a, l2 - a - 2), '%dM3D%dM' % (a, l2 - a), '%dM50N%dM' % (a, l2 - a), '4H%dM' % l2,
+                                 '%dM2S' % (l2 - 2)])
+                r1 = bamgen.make_read(header, name, cn, pos, _seq(rng, l1, start='CATG'), _qual(rng, l1), c1, paired=True, proper=True,
+                                      read1=True, mate_contig=cn, mate_pos=pos + 40, mate_reverse=True, tlen=120, tags=tg)
+                r2 = bamgen.make_read(header, name, cn, pos + 40, _seq(rng, l2), _qual(rng, l2), c2, paired=True, proper=True,
+                                      read2=True, reverse=True, mate_contig=cn, mate_pos=pos, tlen=-120, tags=tg)
+                reads += [r1, r2]
+                note(name, 1, 1, True, kind, cn)
+                note(name, 2, 2, True, kind, cn)
             elif kind == 'untagged':
                 nm = 'plainread%d' % serial[0]
                 r1 = bamgen.make_read(header, nm, cn, pos, _seq(rng, l1, start='CATG'), _qual(rng, l1), paired=True, proper=True,
